@@ -78,5 +78,14 @@ GuestToolAbstractionHolds ==
                                        /\ CT!ExitSet([CT!Base EXCEPT !.inform = f]) = {0}         \* an honest quote in that format is accepted
   /\ \A i \in AT!Ins, f \in AT!Informs : AT!InputAccepted(i, f) => (f # "bogus" \/ i = "empty")
 
-AbstractionsHold == VerifyAbstractionHolds /\ GuestAbstractionHolds /\ ToolAbstractionHolds /\ GuestToolAbstractionHolds
+\* tools/extend leaves the decision about its request to the library: what ExtendTool says the library refuses is what Rtmr refuses
+RT == INSTANCE Rtmr WITH Indices <- {}, DigestLens <- {}, Hashes <- {}, MaxCalls <- 0, InitStates <- {}, tsm <- <<>>, req <- 0, pc <- 0, scan <- 0, target <- 0,
+                         calls <- 0, writes <- <<>>, result <- 0, hist <- <<>>, init <- 0
+ET == INSTANCE ExtendTool WITH in <- "file", index <- "default", quiet <- FALSE, verbosity <- "default", tsm <- "absent", pc <- "done", exit <- 1, said <- "fatal"
+ExtendToolAbstractionHolds ==
+  \A i \in ET!Ins \ {"fileMissing", "directory"}, x \in ET!Indices \ {"notNumber"} :
+    LET r == [kind |-> "log", index |-> ET!IndexValue(x), hash |-> "sha384", log |-> IF ET!LogEmpty(i) THEN "empty" ELSE "nonempty", dlen |-> 48, fault |-> "none"]
+    IN RT!Valid(r) = ~ET!LibraryRefuses(i, x)
+
+AbstractionsHold == VerifyAbstractionHolds /\ GuestAbstractionHolds /\ ToolAbstractionHolds /\ GuestToolAbstractionHolds /\ ExtendToolAbstractionHolds
 =================================================================================
